@@ -307,6 +307,9 @@ def cmdClient : P String := do
   let pjson ← bytes
   let segs ← listOf bytes
   let nrecv ← nat
+  -- further calls were sent between the receives: no effect on what the receives return (the model's `receive`
+  -- depends on the reply stream and the reader state only)
+  let pipelined ← bool
   expect "|"
   let sendClass ← tok
   let written ← bytes
@@ -324,7 +327,7 @@ def cmdClient : P String := do
   | some pl =>
     let res := send method pl f
     let forbidden := (f.more && f.oneway) || (f.more && f.upgrade)
-    let feats0 := s!"nt={if cutInside then 1 else 0} flags={flagsN} forbidden={forbidden} ptok={ptok} frames={frames.length} segs={segs.length} tail={!tail.isEmpty}"
+    let feats0 := s!"nt={if cutInside then 1 else 0} flags={flagsN} forbidden={forbidden} ptok={ptok} frames={frames.length} segs={segs.length} tail={!tail.isEmpty} pipelined={pipelined}"
     -- the property on the observation itself: forbidden combinations write nothing
     if sendClass == "panic" then return s!"DIFF C11 send-panic {feats0}"
     if forbidden && !written.isEmpty then return s!"DIFF C11 forbidden-flags-but-bytes-written {feats0}"
@@ -516,15 +519,18 @@ def cmdAbort : P String := do
   let mut insideFrame := 0
   let mut hard := 0
   for ((off, mode), (replies, log, released, probe)) in runs.zip obs do
-    let pre := stream.take off
+    -- mode linger: the client sent the complete frames before the offset, then `}{` NUL, and kept its end open
+    let pre := if mode == "linger" then stream.take off ++ [125, 123, 0] else stream.take off
     let (frames, tail) := splitOnNul pre
     if !tail.isEmpty then insideFrame := insideFrame + 1
     let t := connLoop reg scriptedBehaviour frames
     let expLog : List LogEntry := t.dispatched.map fun (i, m, rs) => (i, m, rs.map ActResult.isErr)
     let where_ := s!"offset={off} mode={mode}"
     if !probe then return s!"DIFF C10 probe-connection-disturbed {where_}"
+    if !released && mode == "linger" then
+      return s!"DIFF C10 connection-ended-by-the-service-is-not-released-while-the-peer-stays {where_}"
     if !released then return s!"DIFF C10 connection-not-released-after-peer-went-away {where_}"
-    if mode == "half" then
+    if mode == "half" || mode == "linger" then
       let (obsFrames, obsTail) := splitOnNul replies
       if !obsTail.isEmpty then return s!"DIFF C02 trailing-bytes-without-nul {where_}"
       let parsed := obsFrames.map readReplyFrame
